@@ -74,7 +74,11 @@ func genConf(r *rand.Rand, portBase int) ConfSpec {
 			}
 			svc.Listeners = append(svc.Listeners, LnSpec{typ, fmt.Sprintf("%s:%d", host, nextPort())})
 		}
-		for k := 0; k < 1+r.Intn(5); k++ {
+		nk := 1 + r.Intn(5)
+		if s == 0 && r.Intn(2) == 0 {
+			nk = 13 + r.Intn(6) // a long key list (with duplicates below)
+		}
+		for k := 0; k < nk; k++ {
 			key := newKey()
 			svc.Keys = append(svc.Keys, key)
 			if r.Intn(5) == 0 { // the same cipher and secret twice in one service, under another id
@@ -127,7 +131,13 @@ func (pp *pairProbe) probeTCP(c *vk.Ctx, r *rand.Rand, ep Endpoint, k KeySpec) (
 		c.Violation("C09/metrics-endpoint", err.Error())
 		return false, false
 	}
-	reply, _, err := tcpExchange(DialAddr(ep.Addr), nil, k, randBytes(r, k.Codec().C.SaltSize), ip, pp.hub.Port, payload, 20*time.Second)
+	var src net.IP // one client host for the whole configuration: per-client usage state accumulates
+	if a, _ := net.ResolveTCPAddr("tcp", DialAddr(ep.Addr)); a != nil && a.IP.To4() != nil {
+		src = net.IPv4(198, 51, 100, 9)
+	} else {
+		src = net.ParseIP("2001:db8:c9::9")
+	}
+	reply, _, err := tcpExchange(DialAddr(ep.Addr), src, k, randBytes(r, k.Codec().C.SaltSize), ip, pp.hub.Port, payload, 20*time.Second)
 	echoed := err == nil && bytes.Equal(reply, payload)
 	after, _ := pp.srv.Metrics()
 	wantID, owned := firstIDFor(ep.Keys, k)
@@ -175,16 +185,17 @@ func (pp *pairProbe) probeTCP(c *vk.Ctx, r *rand.Rand, ep Endpoint, k KeySpec) (
 }
 
 func (pp *pairProbe) probeUDP(c *vk.Ctx, r *rand.Rand, ep Endpoint, k KeySpec) bool {
-	cl, err := newUDPClient(net.IPv4(198, 51, 100, byte(1+r.Intn(200))).To4(), 0, k)
+	// one client host (two addresses: IPv4 and IPv6), a fresh port per probe
+	cl, err := newUDPClient(net.IPv4(198, 51, 100, 9).To4(), 0, k)
 	if err != nil {
 		return true
 	}
-	defer cl.Close()
+	defer func() { cl.Close() }()
 	id := nextID(c.Batch)
 	server, _ := net.ResolveUDPAddr("udp", DialAddr(ep.Addr))
 	if server.IP.To4() == nil {
 		cl.Close()
-		cl, err = newUDPClient(net.ParseIP(fmt.Sprintf("2001:db8:c9::%x", 1+r.Intn(0xfff))), 0, k)
+		cl, err = newUDPClient(net.ParseIP("2001:db8:c9::9"), 0, k)
 		if err != nil {
 			return true
 		}
@@ -320,6 +331,30 @@ func c09Run(c *vk.Ctx) {
 			}
 			if !ok {
 				break
+			}
+		}
+		// history pass: the same host has by now used every key on its own listeners; foreign keys
+		// must still be refused everywhere (a sample of the negative pairs, and the positive ones again)
+		if ok {
+			for _, ep := range eps {
+				for _, k := range keys {
+					if r.Intn(8) != 0 {
+						continue
+					}
+					c.Eval(fmt.Sprintf("%s|history-pass|owned=%v", ep.Type, len(IDsFor(ep.Keys, k)) > 0))
+					if ep.Type == "tcp" {
+						_, ok = pp.probeTCP(c, r, ep, k)
+					} else {
+						ok = pp.probeUDP(c, r, ep, k)
+					}
+					if !ok {
+						break
+					}
+					pairs++
+				}
+				if !ok {
+					break
+				}
 			}
 		}
 		if pp.fenceC != nil {
